@@ -196,6 +196,18 @@ for si in range(nsets):
         vseq = [((c + 1) if i == vi else c, a) for i, (c, a) in enumerate(items)]
         forms.append((tuple(vseq), formula(tuple(vseq))))
         nsame = len(forms) - 1
+        # formulas derived by arithmetic from an object whose Hill form has ALREADY been read
+        # (a memoised Hill form that is not invalidated shows here)
+        for _ in range(2):
+            st0, f0 = forms[rng.randrange(nsame)]
+            _ = f0.hill
+            k = rng.choice([2, 4, 0.5, 3])
+            g = k * f0
+            forms.append((g.structure, g))
+            g2 = formula(st0)
+            _ = g2.hill
+            g2 += f0
+            forms.append((g2.structure, g2))
         hills = []
         for fi, (st, f) in enumerate(forms):
             h = f.hill
